@@ -6,7 +6,11 @@ set -u
 PATCH="$(readlink -f "$1")"; shift
 cd /repo || exit 2
 if [ -n "$(git status --porcelain)" ]; then echo "/repo is not clean"; exit 2; fi
-restore() { git -C /repo checkout -- . ; git -C /repo clean -fdq; }
+# evidence and replays written while the change is applied are not evidence
+# about /repo: keep the files of the last clean run
+SAVE=$(mktemp -d)
+cp -a /verif/evidence/. "$SAVE"/ 2>/dev/null
+restore() { git -C /repo checkout -- . ; git -C /repo clean -fdq; cp -a "$SAVE"/. /verif/evidence/; rm -rf "$SAVE"; }
 trap restore EXIT
 git apply "$PATCH" || { echo "patch does not apply"; exit 2; }
 git diff --stat | tail -1
